@@ -589,8 +589,10 @@ fn svd_case(rng: &mut Rng) {
 }
 
 fn planes(rng: &mut Rng) {
-    let s = *rng.pick(&[1.0, 1.0, 20.0, 0.05]);
-    let p1 = p3(rng, 10.0 * s);
+    // triangle sizes from 20 down to 3e-7 (a facet of a finely tessellated part expressed in metres):
+    // the cross product of the legs scales with the square of the size
+    let s: f64 = *rng.pick(&[1.0, 1.0, 20.0, 0.05, 1e-3, 1e-5, 3e-7]);
+    let p1 = p3(rng, (10.0 * s).max(0.5));
     let (p2, p3_) = loop {
         let a = p1 + rvec(rng) * s;
         let b = p1 + rvec(rng) * s;
